@@ -182,6 +182,6 @@ fn kv_nested_body(down: bool) {
 		// line of 2: sub-chunks of 2 and 1 frames; line of 6: one chunk of 3
 		if down { assert!(KV_FX_CALLS == 2 && KV_FX_LENS[0] == 2 && KV_FX_LENS[1] == 1); } else { assert!(KV_FX_CALLS == 1 && KV_FX_LENS[0] == 3); }
 	}
-	kani::cover!(down, "w:rate-decrease");
+	kani::cover!(true, "w:reached");
 	std::mem::forget(fx);
 }
